@@ -877,9 +877,10 @@ def variant_edges(body, adt, src_pats, variant):
 # ------------------------------------------------------------------ value expression trees (AFFINE / strict CMP)
 
 TRANSPARENT = rx(r"(::to_owned|::clone|Deref::deref|DerefMut::deref_mut|::as_ref|::borrow|::into|::from|::unwrap|::expect|::copied|::cloned|::to_entity|::as_reader|"
-                 r"Try::branch|::unpack|::pack|::into_inner|::get_ref|::as_slice|::as_u64|::to_vec|::full_value)$")
+                 r"Try::branch|::unpack|::pack|::shannons|::into_inner|::get_ref|::as_slice|::as_u64|::to_vec|::full_value)$")
 ARITH_CALL = rx(r"(arith::(Add|Sub|Mul|Div|Rem)(<.*>)?::(add|sub|mul|div|rem)|::(saturating|checked|wrapping|overflowing)_(add|sub|mul|div|pow)|cmp::(max|min)|Ord::(max|min)|"
                 r"::(safe_add|safe_sub|safe_mul|safe_div|safe_mul_ratio)|::(pow|abs_diff))$")
+VALUE_COMB = rx(r"(Result|Option)::<.*>::(and_then|map|map_err|ok_or|ok_or_else|or_else|unwrap_or|unwrap_or_else|unwrap_or_default)$|::try_from$|::try_into$")
 ARITH_OPS = {"Add", "Sub", "Mul", "Div", "Rem", "AddWithOverflow", "SubWithOverflow", "MulWithOverflow", "AddUnchecked", "SubUnchecked", "MulUnchecked", "Shl", "Shr", "BitAnd", "BitOr", "BitXor"}
 
 
@@ -954,6 +955,14 @@ def expr_sig(body, op, depth=0, seen=None, out=None):
             elif TRANSPARENT.search(c.callee):
                 if c.args:
                     expr_sig(body, c.args[0], depth + 1, seen, out)
+            elif VALUE_COMB.search(c.callee):
+                # x.and_then(|v| f(v)) / x.map(..) / x.ok_or(e): the value is the receiver pushed through the closure
+                if c.args:
+                    expr_sig(body, c.args[0], depth + 1, seen, out)
+                for a in c.args[1:]:
+                    if "p" in a:
+                        for cb in closure_of_local(body, a["p"][0]):
+                            expr_sig(cb, {"p": [0, []]}, depth + 1, None, out)
             else:
                 out.append("leaf:call:" + nm)
     return out
